@@ -16,6 +16,10 @@ import traceback
 
 ROOT = os.path.dirname(os.path.dirname(os.path.abspath(__file__)))
 sys.path.insert(0, ROOT)
+# Where evidence/ and replays/ are written.  The registered commands never set it; the seeded-change tools
+# (tools/seed_eval.py, tools/seed_recheck.py) point it at a scratch directory so that a run against a
+# deliberately broken tree can never overwrite the evidence of the unchanged tree.
+OUT = os.environ.get('H2VC_OUT_DIR') or ROOT
 
 from h2vc import spec, prove, deps_model, extract, hdrmodel  # noqa
 
@@ -152,7 +156,7 @@ def cmd_prove(a):
     targets = [qn for qn, C in spec.REGISTRY.items() if contract_touches(C, prop)]
     if a.function:
         targets = [t for t in targets if a.function in t]
-    ev_path = os.path.join(ROOT, 'evidence', prop + '.json')
+    ev_path = os.path.join(OUT, 'evidence', prop + '.json')
     os.makedirs(os.path.dirname(ev_path), exist_ok=True)
     if not targets:
         print('CHECKER-ERROR property=%s no contracts registered' % prop)
@@ -268,6 +272,7 @@ def cmd_prove(a):
             'undecided_functions': [{'name': qn, 'why': why} for qn, why in undecided_fns],
             'bounded_standins': _bounded_summary(bounded_obs, bounded_out_paths),
             'modular_calls': sorted(modular_used),
+            'tree': tree_id(),
         },
         'assumptions': ASSUMED_SEMANTICS + ['dependency model: ' + m for m in sorted(models)],
         'wall_s': round(time.time() - t0, 2),
@@ -296,13 +301,33 @@ def _bounded_summary(obs, out_paths):
     return out
 
 
+def tree_id():
+    """Which source text the obligations were generated from: sha256 over src/h2/*.py as read on this run."""
+    h = hashlib.sha256()
+    names = sorted(n for n in os.listdir(extract.SRC_DIR) if n.endswith('.py'))
+    for n in names:
+        h.update(n.encode() + b'\0')
+        with open(os.path.join(extract.SRC_DIR, n), 'rb') as f:
+            h.update(f.read())
+    out = {'src_dir': extract.SRC_DIR, 'files': len(names), 'sha256': h.hexdigest()}
+    try:
+        g = subprocess.run(['git', '-C', extract.REPO, 'rev-parse', 'HEAD'], capture_output=True, text=True, timeout=20)
+        d = subprocess.run(['git', '-C', extract.REPO, 'status', '--porcelain', '--', 'src'], capture_output=True, text=True, timeout=20)
+        if g.returncode == 0:
+            out['git_head'] = g.stdout.strip()
+            out['src_modified_files'] = [l[3:] for l in d.stdout.splitlines()]
+    except Exception:
+        pass
+    return out
+
+
 def _z3v():
     import z3
     return z3.get_version_string()
 
 
 def write_replay(prop, ob, rep):
-    d = os.path.join(ROOT, 'replays', prop)
+    d = os.path.join(OUT, 'replays', prop)
     os.makedirs(d, exist_ok=True)
     h = hashlib.sha256((ob.oid + json.dumps(ob.site, sort_keys=True, default=str) + ' '.join(ob.path)).encode()).hexdigest()[:12]
     path = os.path.join(d, h + '.json')
@@ -325,7 +350,7 @@ def write_replay(prop, ob, rep):
         rec['native_replay'] = {'error': str(e)}
     with open(path, 'w') as f:
         json.dump(rec, f, indent=1, default=str)
-    return os.path.relpath(path, ROOT), confirmed, ob
+    return os.path.relpath(path, OUT), confirmed, ob
 
 
 def cmd_determinism(a):
@@ -336,7 +361,7 @@ def cmd_determinism(a):
     seed = int(os.environ.get('VERIF_SEED', '0'))
     obs, notes = determinism.run(extract.SRC_DIR)
     bad = [o for o in obs if o['result'] != 'proved']
-    os.makedirs(os.path.join(ROOT, 'evidence'), exist_ok=True)
+    os.makedirs(os.path.join(OUT, 'evidence'), exist_ok=True)
     status = 0
     lines = []
     if not obs:
@@ -344,13 +369,13 @@ def cmd_determinism(a):
         lines.append('CHECKER-ERROR property=C28 zero obligations generated')
     for o in bad:
         status = 1
-        d = os.path.join(ROOT, 'replays', prop)
+        d = os.path.join(OUT, 'replays', prop)
         os.makedirs(d, exist_ok=True)
         path = os.path.join(d, hashlib.sha256(o['id'].encode()).hexdigest()[:12] + '.json')
         json.dump({'property': prop, 'obligation': o['id'], 'clause': o['clause'], 'detail': o['detail'],
                    'note': 'static determinism obligation failed; no input is needed to exhibit it: the listed '
                            'construct makes output depend on something other than the call sequence'}, open(path, 'w'), indent=1)
-        lines.append('VIOLATION property=%s replay=%s no-failing-input-found' % (prop, os.path.relpath(path, ROOT)))
+        lines.append('VIOLATION property=%s replay=%s no-failing-input-found' % (prop, os.path.relpath(path, OUT)))
         lines.append('  obligation %s :: %s :: %s' % (o['id'], o['clause'], o['detail']))
     ev = {'property_id': prop, 'tier': tier, 'seed': seed, 'level': 'other',
           'coverage': {'explanation': 'Static per-function determinism obligations over every function of src/h2 '
@@ -365,7 +390,10 @@ def cmd_determinism(a):
                                         'dict iteration is insertion ordered']},
           'assumptions': ['exception message text that formats a set is excluded (type and code are compared)'],
           'wall_s': round(time.time() - t0, 2), 'violations': len(bad)}
-    json.dump(ev, open(os.path.join(ROOT, 'evidence', 'C28.json'), 'w'), indent=1)
+    ev['coverage']['tree'] = tree_id()
+    with open(os.path.join(OUT, 'evidence', 'C28.json.tmp'), 'w') as f:
+        json.dump(ev, f, indent=1)
+    os.replace(os.path.join(OUT, 'evidence', 'C28.json.tmp'), os.path.join(OUT, 'evidence', 'C28.json'))
     for ln in lines:
         print(ln)
     print('property=C28 obligations=%d discharged=%d exit=%d' % (len(obs), len(obs) - len(bad), status))
